@@ -25,8 +25,9 @@ for pid in ids:
         if has_thorough:
             e["thorough_cmd"] = f"./check {pid} --tier thorough"
         checks.append(e)
-na = [{"property_id": pid, "reason": mm.NOT_APPLICABLE[pid]} for pid in ids if pid not in {c["property_id"] for c in checks}]
+na = [{"property_id": pid, "reason": mm.NOT_APPLICABLE.get(pid, "no check registered")} for pid in ids if pid not in {c["property_id"] for c in checks}]
 hooks = subprocess.check_output(["git", "-C", "/repo", "log", "--format=%h %s", "--grep=^verif-hooks"]).decode().strip().splitlines()
+fixes = subprocess.check_output(["git", "-C", "/repo", "log", "--format=%h %s", "--grep=^fix:"]).decode().strip().splitlines()
 m = {
     "version": 1,
     "setup_cmd": "./setup.sh",
